@@ -19,8 +19,9 @@ TRUSTED = [
     "the projective formulas: the link is the formula theorems.  The Frobenius data (constants of ep2_frb, family parameter, BN flag) are read "
     "from the running library; the driver checks psi(G) = [p mod r]G and that the four columns of the bn_rec_frb lattice annihilate G "
     "(hypotheses of rec_frb_bn_congr / ep2_mul_gls_correct)",
-    "class C (compared with [k]Q / sum k_i*P_i in the specification per line, not modelled): ep2_mul_lwreg (ep2_mul_reg_gls, bn_rec_sac), the "
-    "bucket branch of ep2_mul_sim_lot (n > 10), ep2_mul_cof; bn_rec_frb for non-BN families is modelled (digits in base |x|) but has no theorem",
+    "modelled and executed per line but not proved: the bucket branch of ep2_mul_sim_lot (n > 10; Ep2Mul.simLotBucket4), bn_rec_frb for non-BN "
+    "families (digits in base |x|); op e2frb presents the decomposition of bn_rec_frb itself (a different valid decomposition does not change k*Q)",
+    "class C (compared with [k]Q in the specification per line, not modelled): ep2_mul_lwreg (ep2_mul_reg_gls, bn_rec_sac), ep2_mul_cof",
     "Frobenius: ep2_frb(Q, i) = [p^i mod r]Q is checked per line for subgroup points and 'image on the twist' for points outside; the theorem "
     "endo_is_scalar_on_cyclic reduces the subgroup claim to the generator under additivity (additivity itself is observed, not proved)",
     "cofactor clearing: image has order dividing r and is zero iff h*P is; points outside the subgroup come from e2pt (x chosen by the generator, y "
